@@ -186,7 +186,7 @@ def body_factory(ctx):
             Mt = 2 * math.pi * (prob.t - prob.t_ref) / P_d - pt_["M0"]
             near_pi = float(np.min(np.abs(np.mod(Mt, 2 * math.pi) - math.pi))) < 1e-3
             tol = 1e-8 * scale * (1 + 2 * math.pi * (prob.t.max() - prob.t_ref) / P_d * 1e-7 / (1 - e)) + (2e-5 if near_pi else 1e-6) * abs(x_du[0])
-            if model_rv.shape != want_rv.shape or np.max(np.abs(model_rv - want_rv)) > tol:
+            if model_rv.shape != want_rv.shape or not (np.max(np.abs(model_rv - want_rv)) <= tol):
                 used_f5 = False
                 if "F5" in prob.applicable_flags(row):
                     M5 = prob.design(row, solver="independent", flags=("F5",))
@@ -204,10 +204,10 @@ def body_factory(ctx):
             var = prob.err ** 2 + s_du ** 2
             gauss = float(np.sum(-0.5 * (np.log(2 * np.pi * var) + (prob.y - want_rv) ** 2 / var)))
             gtol = 1e-7 * (abs(gauss) + prob.n) + float(np.sum(np.abs(prob.y - want_rv) / var)) * tol
-            if abs(float(lnlike) - gauss) > gtol:
+            if not (abs(float(lnlike) - gauss) <= gtol):
                 raise Violation("the ln_likelihood diagnostic is not ln N(y | model, sigma^2 + s^2)", got=float(lnlike),
                                 want=gauss, s_data_units=s_du, tol=gtol)
-            if abs(float(lnprior) - (float(logp_det) - float(lnlike))) > 1e-9 * (abs(float(logp_det)) + abs(float(lnlike)) + 1):
+            if not (abs(float(lnprior) - (float(logp_det) - float(lnlike))) <= 1e-9 * (abs(float(logp_det)) + abs(float(lnlike)) + 1)):
                 raise Violation("ln_prior diagnostic is not logp - ln_likelihood")
             dens = 0.0
             if pr["P"]["kind"] == "uniformlog":
@@ -236,7 +236,7 @@ def body_factory(ctx):
                             point=spec["points"][j], P_range=[a_pu, b_pu], P_unit=Ppu, value=float(c[j]))
         spread = float(c.max() - c.min())
         allowed = 1e-6 * max(x[1] for x in consts) + 2 * max(x[2] for x in consts)
-        if spread > allowed:
+        if not (spread <= allowed):
             j = int(np.argmax(np.abs(c - np.median(c))))
             raise Violation("log-density of the MCMC model is not ln prior(declared) + ln N(y | model, sigma^2+s^2) + const",
                             spread=spread, allowed=allowed, worst_point=spec["points"][j], constant_there=c[j], median_constant=float(np.median(c)))
